@@ -2,8 +2,9 @@
   Model of xlcalculator/xlfunctions/engineering.py: statement-by-statement mirror of `to_int`,
   `handle_places`, `handle_number`, `pad_zeroes`, `conversion`, `convert_bases` and of the twelve
   registered wrappers behind `xl.validate_args`.  The tables PERMITTED_DIGITS, BIT_WIDTHS,
-  BASE_NUMBERS, BOUNDS and the (origin, destination) pair of every wrapper are read from
-  `Gen.C19Eng`, which the translator regenerates from the running module on every check.
+  BASE_NUMBERS, BOUNDS, the digit and places limits and the (origin, destination) pair of every wrapper are
+  read from `Gen.C19Eng`, which the translator regenerates on every check by PROBING the registered
+  functions (what the code does, not how its source spells it).
 
   Python values: `int` → `Int`, `float` → `Rat` (ideal reals), `str` → `List Char`.
   Python builtins that the code leans on are modelled by hand (and tied by the correspondence run):
@@ -149,7 +150,7 @@ def shl1 (k : Int) : Option Nat := if k < 0 then none else some (2 ^ k.toNat)
 def handlePlaces : Option S → Res (Option Int)
   | none => .ok none
   | some (.bool _) => .err .value
-  | some v => (toInt v).bind fun p => if 1 ≤ p ∧ p ≤ 10 then .ok (some p) else .err .num
+  | some v => (toInt v).bind fun p => if placesMin ≤ p ∧ p ≤ placesMax then .ok (some p) else .err .num
 
 /-- what `handle_number` returns: an `int` (origin `dec`) or a `str`. -/
 inductive NumArg | i (z : Int) | s (str : List Char)
@@ -167,7 +168,10 @@ def asStr (number : S) : Res (List Char) :=
 
 /-- the second half: at most ten characters, all of them permitted digits of the origin. -/
 def checkDigits (s : List Char) (origin : EBase) : Res NumArg :=
-  if s.length > 10 then .err .num else
+  match lookup origin maxDigits with
+  | none => .crash .keyError
+  | some most =>
+  if s.length > most then .err .num else
     match lookup origin permittedDigits with
     | none => .crash .keyError
     | some perm => if s.all (fun c => decide (c ∈ perm)) then .ok (.s s) else .err .num
@@ -183,15 +187,13 @@ def padZeroes (string : List Char) (wasNegative : Bool) (places : Option Int) : 
   match places with
   | none => .ok string
   | some p =>
-    let desired : Int := if wasNegative then string.length else p
+    let desired : Int := if wasNegative && negativeKeepsDigits then string.length else p
     if desired < string.length then .err .num else .ok (zfill string desired.toNat)
 
-def ordE : EBase → Nat | .bin => 0 | .oct => 1 | .dec => 2 | .hex => 3
-
-/-- `BOUNDS[frozenset([origin, destination])]`. -/
-def lookupBound (origin destination : EBase) : Option Int :=
-  let key := if ordE origin ≤ ordE destination then (origin, destination) else (destination, origin)
-  (bounds.find? fun r => r.1 = key.1 ∧ r.2.1 = key.2).map fun r => r.2.2
+/-- the window of a conversion: the smallest and the largest integer it converts
+    (`BOUNDS[frozenset([origin, destination])]`, as observed on the running functions). -/
+def lookupBound (origin destination : EBase) : Option (Int × Int) :=
+  (bounds.find? fun r => r.1 = origin ∧ r.2.1 = destination).map fun r => r.2.2
 
 /-- the signed value of a digit string read in the origin base (the `else` branch of `conversion`). -/
 def fromDigits (str : List Char) (origin : EBase) : Res Int :=
@@ -201,7 +203,7 @@ def fromDigits (str : List Char) (origin : EBase) : Res Int :=
     match pyIntBase str b with
     | none => .crash .valueError
     | some asInt =>
-      match lookup origin bitWidths with
+      match lookup origin signWidths with
       | none => .crash .keyError
       | some w =>
         match shl1 (w - 1) with
@@ -221,7 +223,7 @@ def renderDigits (value : Int) (destination : EBase) (places : Option Int) : Res
     else .ok value
   wrapped.bind fun v =>
     (pyBaseRepr destination v).bind fun r =>
-      padZeroes ((r.drop 2).map upperChar) wasNegative places
+      padZeroes (if upperCase then (r.drop 2).map upperChar else r.drop 2) wasNegative places
 
 /-- the head of `conversion`: the integer the validated argument denotes. -/
 def valueOfArg (number : NumArg) (origin : EBase) : Res Int :=
@@ -238,8 +240,8 @@ def conversion (number : NumArg) (origin destination : EBase) (places : Option I
   (valueOfArg number origin).bind fun value =>
     match lookupBound origin destination with
     | none => .crash .keyError
-    | some bound =>
-      if ¬ (-bound ≤ value ∧ value < bound) then .err .num
+    | some (least, most) =>
+      if ¬ (least ≤ value ∧ value ≤ most) then .err .num
       else if destination = .dec then .ok (.num (.int value))
       else (renderDigits value destination places).map .text
 
